@@ -421,6 +421,24 @@ fn judge_c08(g: &Geometry, bm: &Arc<AtomicBitmap>, prog: &[Vec<Op>], res: &[Vec<
         }
     }
     let fin = read_all(bm, n + 70);
+    // At quiescence every way of looking at the bitmap must agree: a copy made now and a fetch-and-clear
+    // made now report exactly the pages that are still set, and the fetch-and-clear leaves nothing behind
+    // (a mark that is "still set" but that no later fetch-and-clear or copy reports is never observed).
+    {
+        let copy = in_mode(Mode::Oracle, || bm.as_ref().clone());
+        let in_copy = read_all(&copy, n + 70);
+        let last: BTreeSet<usize> = in_mode(Mode::Oracle, || bits_of(&bm.get_and_reset())).into_iter().collect();
+        let left = read_all(bm, n + 70);
+        if let Some(b) = fin.iter().find(|b| **b < n && !last.contains(b)) {
+            cx().violate("C08", "C08/conservation", "mark invisible to a later fetch-and-clear".into(), format!("[{}] page {} is set after all threads finished, but a get_and_reset() made then does not report it", label, b));
+        } else if let Some(b) = fin.iter().find(|b| **b < n && !in_copy.contains(b)) {
+            cx().violate("C08", "C08/conservation", "mark invisible to a later copy".into(), format!("[{}] page {} is set after all threads finished, but a clone() made then does not show it", label, b));
+        } else if let Some(b) = last.iter().chain(in_copy.iter()).find(|b| !fin.contains(b)) {
+            cx().violate("C08", "C08/phantom", "phantom at quiescence".into(), format!("[{}] page {} is reported by a get_and_reset() or clone() made after all threads finished, but was not set", label, b));
+        } else if let Some(b) = left.iter().next() {
+            cx().violate("C08", "C08/duplication", "fetch-and-clear left a page set".into(), format!("[{}] page {} is still set after a get_and_reset() made when all threads had finished", label, b));
+        }
+    }
     // harvested multiset, phantoms
     let mut harvested: BTreeMap<usize, usize> = BTreeMap::new();
     for (ai, ops) in prog.iter().enumerate() {
@@ -566,7 +584,9 @@ impl Scenario for Conc {
             prog.push((0..k).map(|_| gen_op(&g, hot)).collect());
         }
         // a third of the bitmaps reach their size through enlarge
-        let bm = Arc::new(crate::world::grown_bitmap(g.byte_size, g.ps.get()));
+        // (now and then with pages marked before it grew: those marks are owed to the harvests of the run)
+        let (bm0, preset) = in_mode(Mode::Oracle, || crate::world::grown_bitmap_marked(g.byte_size, g.ps.get()));
+        let bm = Arc::new(bm0);
         cx().mode = Mode::Setup;
         register_words(&bm);
         let res = run_actors(&bm, &prog);
@@ -575,9 +595,9 @@ impl Scenario for Conc {
         if c.sched.over_budget {
             c.harness_error = Some("step budget exceeded in S-bitmap/concurrent".into());
         }
-        let v = judge_c08(&g, &bm, &prog, &res, &BTreeSet::new(), "concurrent");
+        let v = judge_c08(&g, &bm, &prog, &res, &preset, "concurrent");
         probes(&prog, &res);
-        let desc = if cx().trace { Some(describe_run(&g, &prog, &res, &format!("hot_page={}", hot))) } else { None };
+        let desc = if cx().trace { Some(describe_run(&g, &prog, &res, &format!("hot_page={} pages_marked_before_growing={:?}", hot, preset))) } else { None };
         cx().mode = Mode::Oracle;
         RunInfo {
             nontrivial: v.nontrivial,
